@@ -11,7 +11,7 @@ Core Lean only (linked into the driver: the `spec …` ops evaluate these functi
 -/
 
 namespace Ledger
-open TxStore (OutPoint Block BlockMeta Tx withIdx CreditRecord DebitRecord Details Credit maxInt32)
+open TxStore (OutPoint Block BlockMeta Tx withIdx CreditRecord DebitRecord Details Credit maxInt32 grantedExpiry)
 
 structure LBlock where
   bm : BlockMeta
@@ -20,7 +20,8 @@ deriving DecidableEq, Repr, Inhabited
 
 structure Lease where
   id : Nat
-  expiry : Int                  -- the instant handed to the caller, in ns
+  expiry : Int                  -- the instant handed to the caller, in ns (leases have whole-second granularity:
+                                -- `now + duration` rounded up to the next second)
 deriving DecidableEq, Repr, Inhabited
 
 structure Ledger where
@@ -213,8 +214,8 @@ def apply (L : Ledger) : Event → Ledger
     if !leasable L op then L
     else match leaseOf L op with
       | some l => if l.id ≠ id then L
-                  else { L with leases := (L.leases.filter fun p => p.1 != op) ++ [(op, ⟨id, L.now + d⟩)] }
-      | none => { L with leases := (L.leases.filter fun p => p.1 != op) ++ [(op, ⟨id, L.now + d⟩)] }
+                  else { L with leases := (L.leases.filter fun p => p.1 != op) ++ [(op, ⟨id, grantedExpiry L.now d⟩)] }
+      | none => { L with leases := (L.leases.filter fun p => p.1 != op) ++ [(op, ⟨id, grantedExpiry L.now d⟩)] }
   | .release id op =>
     if !leasable L op then L
     else match leaseOf L op with
